@@ -31,6 +31,7 @@
 #include <chrono>
 
 #include <tbox/base/log.h>
+#include <tbox/base/verif_hooks.h>
 #include <tbox/base/cabinet.hpp>
 #include <tbox/base/assert.h>
 #include <tbox/base/catch_throw.h>
@@ -260,6 +261,7 @@ void ThreadPool::cleanup()
         d_->threads_cabinet.clear();
     }
 
+    TBOX_VERIF_SCHED_POINT("thread_pool.cleanup_before_stop_flag");
     d_->all_threads_stop_flag = true;
     d_->cond_var.notify_all();
 
@@ -326,6 +328,7 @@ void ThreadPool::threadProc(ThreadToken thread_token)
 
             item = popOneTask();    //! 从任务队列中取出优先级最高的任务
         }
+        TBOX_VERIF_SCHED_POINT("thread_pool.after_pop");
 
         //! 后面就是去执行任务，不需要再加锁了
         if (item != nullptr) {
@@ -368,6 +371,7 @@ void ThreadPool::threadProc(ThreadToken thread_token)
     LogDbg("thread %u exit", thread_token.id());
 
     if (let_main_loop_join_me) {
+        TBOX_VERIF_SCHED_POINT("thread_pool.worker_exit_decided");
         //! 则将线程取出来，交给main_loop去join()，然后delete
         std::unique_lock<std::mutex> lk(d_->lock);
 
@@ -409,6 +413,7 @@ bool ThreadPool::shouldThreadExitWaiting() const
         }
     }
 
+    TBOX_VERIF_SCHED_POINT("thread_pool.pred_false");
     return false;
 }
 
